@@ -9,13 +9,22 @@ package caching
 //@ pure func pmShape(m *_ProgramMap) bool = m != nil && len(m.b) == int(m.m) + 1 && len(m.b) >= 1 && m.m <= 1073741823
 //@ pure func pmHas(m *_ProgramMap, k *rt.GoType, v interface{}) bool = exists i int :: 0 <= i && i < len(m.b) && m.b[i].vt == k && m.b[i].fn == v
 //@ pure func pmFree(m *_ProgramMap) bool = exists i int :: 0 <= i && i < len(m.b) && m.b[i].vt == nil
+// probe chains: every slot between the home slot of a stored key and the slot that
+// holds it (cyclically) is occupied - the fact that makes a lookup complete.
+//@ pure func pmUniq(m *_ProgramMap) bool = forall i int, j int :: (0 <= i && i < j && j < len(m.b) && m.b[i].vt != nil) ==> m.b[i].vt != m.b[j].vt
+//@ pure func pmHome(m *_ProgramMap, k *rt.GoType) int = int(k.Hash & m.m)
+//@ pure func pmBetween(a int, t int, j int) bool = ite(a <= j, a <= t && t < j, t >= a || t < j)
+//@ pure func pmChain(m *_ProgramMap) bool = forall j int, t int :: (0 <= j && j < len(m.b) && 0 <= t && t < len(m.b) && m.b[j].vt != nil && pmBetween(pmHome(m, m.b[j].vt), t, j)) ==> m.b[t].vt != nil
 
 // get: a hit returns the codec stored under exactly this type (pointer identity);
 // it never returns a codec stored under another key.
 //@ func (*_ProgramMap).get props C09
-//@   requires pmShape(self) && vt != nil
+//@   requires pmShape(self) && vt != nil && isMask(self.m) && pmChain(self) && pmUniq(self)
 //@   ensures result != nil ==> pmHas(self, vt, result)
+//@   ensures result == nil ==> (forall j int :: (0 <= j && j < len(self.b) && self.b[j].vt == vt) ==> self.b[j].fn == nil)
 //@   loop 0: invariant 0 <= p && p <= self.m && i <= self.m + 1
+//@   loop 0: invariant int(p) == ite(pmHome(self, vt) + (int(self.m) + 1 - int(i)) < len(self.b), pmHome(self, vt) + (int(self.m) + 1 - int(i)), pmHome(self, vt) + (int(self.m) + 1 - int(i)) - len(self.b))
+//@   loop 0: invariant forall t int :: (0 <= t && t < len(self.b) && ite(pmHome(self, vt) + (int(self.m) + 1 - int(i)) < len(self.b), pmHome(self, vt) <= t && t < pmHome(self, vt) + (int(self.m) + 1 - int(i)), t >= pmHome(self, vt) || t < pmHome(self, vt) + (int(self.m) + 1 - int(i)) - len(self.b))) ==> (self.b[t].vt != nil && self.b[t].vt != vt)
 //@   loop 0: decreases i
 
 // mask arithmetic: for m = 2^k - 1, x & m == x mod (m+1).  Used in int mode as an
@@ -33,6 +42,7 @@ package caching
 //@   requires pmShape(self) && isMask(self.m) && vt != nil && pmFree(self) && self.n < 4611686018427387904
 //@   modifies self.n, self.b[_]
 //@   ensures pmShape(self) && self.m == old(self.m) && same(self.b, old(self.b)) && self.n == old(self.n) + 1
+//@   ensures[C09] (old(pmChain(self)) && old(pmUniq(self)) && (forall j int :: (0 <= j && j < len(self.b)) ==> old(self.b[j].vt) != vt)) ==> (pmChain(self) && pmUniq(self))
 //@   witness q int = p
 //@   ensures 0 <= q && q < len(self.b) && old(self.b[q].vt) == nil && self.b[q].vt == vt && self.b[q].fn == fn && (forall j int :: 0 <= j && j < len(self.b) && j != q ==> same(self.b[j], old(self.b[j])))
 //@   loop 0: invariant 0 <= p && p <= self.m && i <= self.m + 1 && pmShape(self) && self.m == old(self.m) && same(self.b, old(self.b)) && self.n == old(self.n)
@@ -48,6 +58,7 @@ package caching
 //@   ensures result != nil && fresh(result) && fresh(result.b) && pmShape(result) && result.m == self.m && result.n == self.n && len(result.b) == len(self.b)
 //@   ensures forall j int :: 0 <= j && j < len(self.b) ==> same(result.b[j], self.b[j])
 //@   ensures forall j int :: 0 <= j && j < len(self.b) ==> same(self.b[j], old(self.b[j]))
+//@   ensures (pmChain(self) ==> pmChain(result)) && (pmUniq(self) ==> pmUniq(result)) && (pmFree(self) ==> pmFree(result))
 //@   loop 0: invariant -1 <= rangeindex && rangeindex <= len(self.b) - 1
 //@   loop 0: invariant fork != nil && fresh(fork) && fresh(fork.b) && len(fork.b) == len(self.b) && fork.m == self.m && fork.n == self.n && base(fork.b) != base(self.b) && off(fork.b) == 0
 //@   loop 0: invariant forall j int :: 0 <= j && j <= rangeindex ==> same(fork.b[j], self.b[j])
